@@ -6,7 +6,8 @@ and ``collection_class`` knobs) over a generated population (duplicates, NULL FK
 empty collections).  For every generated query (filters, any()/has(), explicit joins
 that duplicate primary rows, total ORDER BY, LIMIT/OFFSET, DISTINCT, extra column /
 entity in the row, aliased root, polymorphic root, yield_per, 2.0-style execute and
-legacy Query) a relationship tree of 1..3 nodes and depth <= 2 is drawn and **every**
+legacy Query) optionally in a session that already holds the root objects unloaded) a relationship tree
+of 1..3 nodes and depth <= 2 is drawn and **every**
 assignment of {lazy, joined, subquery, selectin, immediate} to its nodes is executed in a
 fresh Session, each with one column-option flavour (defer / load_only / undefer /
 undefer_group / nested defer / raiseload on untouched paths / ``Load.raiseload('*')``).
@@ -231,12 +232,12 @@ def gen_query(zoo, rng):
                          {"on": "join", "col": rng.choice([c for c, _ in PRED_COLS[jb]]), "desc": rng.random() < 0.4})
         q["order"] = order
         q["pk_desc"] = rng.random() < 0.3
-        if rng.random() < 0.55:
+        if rng.random() < 0.5:
             q["limit"] = rng.randint(1, 5)
             if rng.random() < 0.5:
                 q["offset"] = rng.randint(0, 3)
-        elif rng.random() < 0.1:
-            q["offset"] = rng.randint(0, 2)
+        elif rng.random() < 0.4:
+            q["offset"] = rng.randint(1, 2)
     else:
         q["distinct"] = rng.random() < 0.1
     r = rng.random()
@@ -253,6 +254,9 @@ def gen_query(zoo, rng):
         q["yield_per"] = rng.choice([1, 2, 3])
     if base == "E" and root == "E" and rng.random() < 0.3:
         q["wpoly"] = True
+    # the session may already hold the root objects with every relationship unloaded
+    # (exercises population of *existing* instances)
+    q["preload"] = rng.random() < 0.35
     return q
 
 
@@ -468,6 +472,10 @@ def run_variant(sa, orm, R, zoo, engine, spy, q, tree, assign, style, flavour, r
     opts = build_options(orm, zoo, pc["ent"], q["root"], tree, assign, style, flavour, rc, q)
     out = {}
     with orm.Session(engine) as s:
+        held = None
+        if q.get("preload"):
+            pre_cls = zoo.cls["E" if q["root"] in ("Eng", "Mgr") else q["root"]]
+            held = s.scalars(sa.select(pre_cls).options(orm.lazyload("*"))).all()
         try:
             if q["api"] == "query":
                 lq = build_legacy(s, pc, q, opts)
@@ -598,6 +606,10 @@ def one_query(ctx, sa, orm, R, zoo, engine, spy, q, tree, rng, warnings):
     ctx.count("queries")
     if q["limit"] is not None:
         ctx.count("limit_queries")
+    elif q["offset"] is not None:
+        ctx.count("offset_only_queries")
+    if q.get("preload"):
+        ctx.count("preloaded_session_queries")
     if q["distinct"]:
         ctx.count("distinct_queries")
     if q["join"]:
